@@ -220,15 +220,17 @@ func (l *List) M__setitem__(key, value Object) (Object, error) {
 			if stop < start {
 				stop = start
 			}
+			// Read the new items before changing the list in case
+			// it is being assigned from itself
+			newItems, err := SequenceTuple(value)
+			if err != nil {
+				return nil, err
+			}
 			// Make a copy of the tail
 			tailSlice := l.Items[stop:]
 			tail := make([]Object, len(tailSlice))
 			copy(tail, tailSlice)
-			l.Items = l.Items[:start]
-			err = l.ExtendSequence(value)
-			if err != nil {
-				return nil, err
-			}
+			l.Items = append(l.Items[:start], newItems...)
 			l.Items = append(l.Items, tail...)
 		} else {
 			newItems, err := SequenceTuple(value)
